@@ -270,132 +270,162 @@ func applyFeature(wc *pqfile.WChunk, pi int, feature string) bool {
 	return true
 }
 
-func runC18(c *Ctx) {
-	for _, sh := range c.SelShapes() {
-		sc := sh.Schema()
-		var counter uint64
-		all, _ := EnumStructures(sc, lensSmall, 200, &counter)
-		recs := pickSpread(all, min(len(all), 12))
-		// make sure every column has values somewhere: add the "everything present" record
-		full := genTree(sc, fullChooser{}, counterVals{&counter}, []int{0, 1, 2})
-		recs = append(recs, full, genTree(sc, fullChooser{}, counterVals{&counter}, []int{0, 1, 2}), genTree(sc, fullChooser{}, counterVals{&counter}, []int{0, 1, 2}))
-		for len(recs) < 15 {
-			recs = append(recs, genTree(sc, fullChooser{}, counterVals{&counter}, []int{0, 1, 2}))
-		}
-		n := len(recs)
-		part := []int{n / 3, n / 3, n - 2*(n/3)}
-		// interleave full records through all row groups
-		mixed := make([]*dremel.Tree, 0, n)
-		for i := 0; i < n; i++ {
-			mixed = append(mixed, recs[(i*7)%n])
-		}
-		recs = mixed
-		for ci, leaf := range sc.Leaves {
-			col := strings.Join(leaf.Path, ".")
-			for fi, feature := range featuresFor(&leaf.Node) {
-				var combos [][2]int // (row group, page position 0 first / 1 middle / 2 last)
-				if c.Thorough {
-					for g := 0; g < 3; g++ {
-						for pp := 0; pp < 3; pp++ {
-							combos = append(combos, [2]int{g, pp})
-						}
+// carrier is one otherwise valid file with one unsupported feature.
+type carrier struct {
+	ID      string
+	Shape   *Shape
+	Feature string
+	Col     string
+	RG, PI  int
+	Codec   int32
+	File    []byte
+	Recs    []*dremel.Tree
+}
+
+// forEachCarrier builds the carrier files of a shape: every column x every
+// applicable feature x placements (quick: 2 (row group, page position)
+// placements and one codec per (column, feature); thorough: all 9 x 3).
+func forEachCarrier(c *Ctx, sh *Shape, prefix string, only func(feature string) bool, f func(cc *carrier)) {
+	sc := sh.Schema()
+	var counter uint64
+	all, _ := EnumStructures(sc, lensSmall, 200, &counter)
+	recs := pickSpread(all, min(len(all), 12))
+	// make sure every column has values somewhere: add "everything present" records
+	for i := 0; i < 3 || len(recs) < 15; i++ {
+		recs = append(recs, genTree(sc, fullChooser{}, counterVals{&counter}, []int{0, 1, 2}))
+	}
+	n := len(recs)
+	part := []int{n / 3, n / 3, n - 2*(n/3)}
+	// interleave full records through all row groups
+	mixed := make([]*dremel.Tree, 0, n)
+	for i := 0; i < n; i++ {
+		mixed = append(mixed, recs[(i*7)%n])
+	}
+	recs = mixed
+	for ci, leaf := range sc.Leaves {
+		col := strings.Join(leaf.Path, ".")
+		for fi, feature := range featuresFor(&leaf.Node) {
+			if only != nil && !only(feature) {
+				continue
+			}
+			var combos [][2]int // (row group, page position 0 first / 1 middle / 2 last)
+			if c.Thorough {
+				for g := 0; g < 3; g++ {
+					for pp := 0; pp < 3; pp++ {
+						combos = append(combos, [2]int{g, pp})
 					}
-				} else {
-					k := ci + fi
-					combos = [][2]int{{k % 3, (k / 3) % 3}, {(k + 1) % 3, (k/3 + 1) % 3}}
 				}
-				for _, codec := range []int32{0, 1, 2} {
-					if !c.Thorough && int(codec) != (ci+fi)%3 {
+			} else {
+				k := ci + fi
+				combos = [][2]int{{k % 3, (k / 3) % 3}, {(k + 1) % 3, (k/3 + 1) % 3}}
+			}
+			for _, codec := range []int32{0, 1, 2} {
+				if !c.Thorough && int(codec) != (ci+fi)%3 {
+					continue
+				}
+				for _, cb := range combos {
+					id := fmt.Sprintf("%s%s/col=%s/%s/rg=%d/pos=%d/%s", prefix, sh.Name, col, feature, cb[0], cb[1], CodecNames[int(codec)])
+					if !c.Take(id) {
 						continue
 					}
-					for _, cb := range combos {
-						id := fmt.Sprintf("%s/col=%s/%s/rg=%d/pos=%d/%s", sh.Name, col, feature, cb[0], cb[1], CodecNames[int(codec)])
-						if !c.Take(id) {
-							continue
-						}
-						rgs, err := baseRowGroups(sc, recs, part, codec)
-						if err != nil {
-							c.Out.Inconclusive("reference writer: " + err.Error())
-							continue
-						}
-						wc := &rgs[cb[0]].Chunks[ci]
-						pi := 0
-						switch cb[1] {
-						case 1:
-							pi = len(wc.Pages) / 2
-						case 2:
-							pi = len(wc.Pages) - 1
-						}
-						if !applyFeature(wc, pi, feature) {
-							c.Out.Count("not_placeable", 1)
-							continue
-						}
-						file, err := pqfile.WriteFile(&sc.Root.Node, rgs, pqfile.WOptions{CreatedBy: "reference writer (C18)"})
-						if err != nil {
-							c.Out.Inconclusive("reference writer: " + err.Error())
-							continue
-						}
-						// structural sanity of the carrier: footer, tree, page walk
-						pf, err := pqfile.Parse(file)
-						if err == nil {
-							_, err = pqfile.BuildTree(pf.Schema)
-						}
-						if err == nil {
-							for _, rg := range pf.RowGroups {
-								for _, ch := range rg.Columns {
-									st := ch.DataPageOffset
-									if ch.DictPageOffset != nil && *ch.DictPageOffset < st {
-										st = *ch.DictPageOffset
-									}
-									if ch.IndexPageOff != nil && *ch.IndexPageOff < st {
-										st = *ch.IndexPageOff
-									}
-									if _, e := pqfile.WalkChunk(file, st, ch.TotalComp); e != nil {
-										err = e
-									}
+					rgs, err := baseRowGroups(sc, recs, part, codec)
+					if err != nil {
+						c.Out.Inconclusive("reference writer: " + err.Error())
+						continue
+					}
+					wc := &rgs[cb[0]].Chunks[ci]
+					pi := 0
+					switch cb[1] {
+					case 1:
+						pi = len(wc.Pages) / 2
+					case 2:
+						pi = len(wc.Pages) - 1
+					}
+					if !applyFeature(wc, pi, feature) {
+						c.Out.Count("not_placeable", 1)
+						continue
+					}
+					file, err := pqfile.WriteFile(&sc.Root.Node, rgs, pqfile.WOptions{CreatedBy: "reference writer (C18)"})
+					if err != nil {
+						c.Out.Inconclusive("reference writer: " + err.Error())
+						continue
+					}
+					// structural sanity of the carrier: footer, tree, page walk
+					pf, err := pqfile.Parse(file)
+					if err == nil {
+						_, err = pqfile.BuildTree(pf.Schema)
+					}
+					if err == nil {
+						for _, rg := range pf.RowGroups {
+							for _, ch := range rg.Columns {
+								if _, e := pqfile.WalkChunk(file, ChunkStart(&ch), ch.TotalComp); e != nil {
+									err = e
 								}
 							}
 						}
-						if err != nil {
-							c.Out.Inconclusive(fmt.Sprintf("carrier file for %s is malformed: %v", id, err))
-							continue
-						}
-						c.Out.Count("cases", 1)
-						c.Out.Count("feature_"+feature, 1)
-						if cb[0] > 0 {
-							c.Out.Count("feature_in_later_row_group", 1)
-						}
-						if pi > 0 {
-							c.Out.Count("feature_in_later_page", 1)
-						}
-						c.Out.Distinct(id, cb[0] > 0 || pi > 0)
-						res := ReadAll(sh, NewSource(file), n+5)
-						bad := func(kind, detail string) {
-							c.Out.Violate(Violation{Prop: "C18", Key: "feature=" + feature + ";kind=" + kind, Case: id, Shape: sh.Name,
-								Detail: fmt.Sprintf("otherwise valid file (%d bytes, %d rows in 3 row groups) whose column %s uses %s in row group %d, page %d (codec %s): %s", len(file), n, col, feature, cb[0], pi, CodecNames[int(codec)], detail)})
-						}
-						switch {
-						case res.Panic != nil:
-							bad("panic", fmt.Sprintf("reader panicked: %v\n%s", res.Panic, clip(res.Stack)))
-						case res.CtorErr != nil:
-							c.Out.Count("refused_by_constructor", 1)
-							c.Out.SetAdd("refusal_messages", errClass(res.CtorErr))
-						case res.Err != nil:
-							c.Out.Count("refused_during_iteration", 1)
-							c.Out.Count("rows_delivered_before_refusal", int64(len(res.Recs)))
-							c.Out.SetAdd("refusal_messages", errClass(res.Err))
-						default:
-							wrong := CompareRecs(sc, recs, res.Recs)
-							if wrong == "" {
-								wrong = "(the rows happen to equal the file's logical content)"
-							}
-							bad("accepted", fmt.Sprintf("no error from the constructor or Error(); %d rows delivered; %s", len(res.Recs), wrong))
-						}
-						c.Out.Sample(map[string]interface{}{"case": id, "feature": feature, "column": col, "row_group": cb[0], "page": pi, "file_bytes": len(file)})
 					}
+					if err != nil {
+						c.Out.Inconclusive(fmt.Sprintf("carrier file for %s is malformed: %v", id, err))
+						continue
+					}
+					f(&carrier{ID: id, Shape: sh, Feature: feature, Col: col, RG: cb[0], PI: pi, Codec: codec, File: file, Recs: recs})
 				}
 			}
 		}
+	}
+}
+
+// ChunkStart is the offset of the first page of a chunk (dictionary and index
+// pages may precede the first data page).
+func ChunkStart(ch *pqfile.Chunk) int64 {
+	st := ch.DataPageOffset
+	if ch.DictPageOffset != nil && *ch.DictPageOffset < st {
+		st = *ch.DictPageOffset
+	}
+	if ch.IndexPageOff != nil && *ch.IndexPageOff < st {
+		st = *ch.IndexPageOff
+	}
+	return st
+}
+
+func runC18(c *Ctx) {
+	for _, sh := range c.SelShapes() {
+		sc := sh.Schema()
+		forEachCarrier(c, sh, "", nil, func(cc *carrier) {
+			n := len(cc.Recs)
+			c.Out.Count("cases", 1)
+			c.Out.Count("feature_"+cc.Feature, 1)
+			if cc.RG > 0 {
+				c.Out.Count("feature_in_later_row_group", 1)
+			}
+			if cc.PI > 0 {
+				c.Out.Count("feature_in_later_page", 1)
+			}
+			c.Out.Distinct(cc.ID, cc.RG > 0 || cc.PI > 0)
+			res := ReadAll(sh, NewSource(cc.File), n+5)
+			bad := func(kind, detail string) {
+				c.Out.Violate(Violation{Prop: "C18", Key: "feature=" + cc.Feature + ";kind=" + kind, Case: cc.ID, Shape: sh.Name,
+					Detail: fmt.Sprintf("otherwise valid file (%d bytes, %d rows in 3 row groups) whose column %s uses %s in row group %d, page %d (codec %s): %s", len(cc.File), n, cc.Col, cc.Feature, cc.RG, cc.PI, CodecNames[int(cc.Codec)], detail)})
+			}
+			switch {
+			case res.Panic != nil:
+				bad("panic", fmt.Sprintf("reader panicked: %v\n%s", res.Panic, clip(res.Stack)))
+			case res.CtorErr != nil:
+				c.Out.Count("refused_by_constructor", 1)
+				c.Out.SetAdd("refusal_messages", errClass(res.CtorErr))
+			case res.Err != nil:
+				c.Out.Count("refused_during_iteration", 1)
+				c.Out.Count("rows_delivered_before_refusal", int64(len(res.Recs)))
+				c.Out.SetAdd("refusal_messages", errClass(res.Err))
+			default:
+				wrong := CompareRecs(sc, cc.Recs, res.Recs)
+				if wrong == "" {
+					wrong = "(the rows happen to equal the file's logical content)"
+				}
+				bad("accepted", fmt.Sprintf("no error from the constructor or Error(); %d rows delivered; %s", len(res.Recs), wrong))
+			}
+			c.Out.Sample(map[string]interface{}{"case": cc.ID, "feature": cc.Feature, "column": cc.Col, "row_group": cc.RG, "page": cc.PI, "file_bytes": len(cc.File)})
+		})
 	}
 }
 
